@@ -179,12 +179,16 @@ CHECKS = {
               "TLC model-checks CsrEventMon_MC (conforming CSR initiator interleaved with arbitrary source "
               "activity, masks spanning several chunks, alignment padding) with history-based statements: enable "
               "takes the written mask, write-one clears exactly those unless re-triggered, zeros clear nothing, "
-              "irq = enable & pending; real csr.event.EventMonitor instances (0-20 events, 1-32 bit buses, "
+              "irq = enable & pending; IrqHandler_MC composes it with a software interrupt handler following the "
+              "documented protocol (read pending, write-one-to-clear, serve; stalling anywhere) and devices with work "
+              "outstanding: no work is lost (invariant), work is eventually served (liveness under weak fairness of "
+              "the handler), the serve-then-acknowledge race is refuted; TLC -simulate handler behaviours are replayed "
+              "on real monitors and compared state by state; real csr.event.EventMonitor instances (0-20 events, 1-32 bit buses, "
               "alignment 0-2, all trigger modes) attached behind a csr.Decoder and by wiring.connect() to an "
               "initiator interface are driven by register transactions while sources fire, and every cycle "
               "(incl. the register addresses reported by the memory map) is validated by TLC."),
         note=TB + "; the CSR initiator is protocol-conforming, as the property states. A failing wiring.connect is a violation (the property names that attachment).",
-        technique="TLA+ composition of two specs + TLC model checking; TLC trace validation of the real component in both attachments",
+        technique="TLA+ composition of two specs + TLC model checking (safety and liveness, incl. a handler-protocol model); TLC-generated behaviours replayed on the real component; TLC trace validation in both attachments",
         design="5 (C14)"),
     "C19": dict(
         category="exploration",
